@@ -9,6 +9,7 @@ CONSTANT MaxAttemptsU = 25
 CONSTANT MaxReload = 5
 CONSTANT MaxSteps = 1000000
 CONSTANT Sequential = FALSE
+CONSTANT Verbose = FALSE
 CONSTANT AllowStalePrev = TRUE
 CONSTANT AllowOrphanDeleteLive = TRUE
 CONSTANT AllowDeleteFinalizeLive = TRUE
